@@ -11,8 +11,8 @@ Definition mk_graphs (l : list (positive * sgraph)) :=
   fold_right (fun e m => PositiveMap.add (fst e) (snd e) m) (PositiveMap.empty sgraph) l.
 Definition mk_globals (l : list (positive * list nid)) :=
   fold_right (fun e m => PositiveMap.add (fst e) (snd e) m) (PositiveMap.empty (list nid)) l.
-Definition cfg_eager := mkConfig false None false.
-Definition cfg_ondemand := mkConfig true None false.
+Definition cfg_eager := mkConfig false None false false false.
+Definition cfg_ondemand := mkConfig true None false false false.
 Definition sg0 := mkSGraph true [] [] [] [] [].
 
 (** [x := origin(); bt(x)]: 1 = argument of bt, 2 = call bt, 3 = call origin, 4 = origin's return value *)
@@ -69,9 +69,17 @@ Lemma tuple_run :
   traces tuple_state = [[6; 4; 3; 1]] /\ silent tuple_state = [] /\ closed_runb g_tuple cfg_eager tuple_state = false.
 Proof. vm_compute. auto. Qed.
 
-Definition c3 := mkC 3 [] [] false 0%Z (Some 0%Z).
-Definition c5 := mkC 5 [3] [] false 0%Z None.
-Definition c7 := mkC 7 [3] [] false 0%Z None.
+(** with the tuple repair ([fix_tuple]) both return values are followed and the run is closed *)
+Definition cfg_fix_tuple := mkConfig false None false true false.
+
+Lemma tuple_fixed_run :
+  let '(s, o) := back no_oracle g_tuple cfg_fix_tuple 100%nat empty_pei 1 in
+  o = Done /\ traces s = [[6; 4; 3; 1]; [7; 5; 3; 1]] /\ silent s = [] /\ closed_runb g_tuple cfg_fix_tuple s = true.
+Proof. vm_compute. auto. Qed.
+
+Definition c3 := mkC 3 [] [] false 0%Z [0%Z].
+Definition c5 := mkC 5 [3] [] false 0%Z [].
+Definition c7 := mkC 7 [3] [] false 0%Z [].
 
 Lemma tuple_reach7 : vreach g_tuple cfg_eager 1 (next_of (next_of (next_of (root 1) c3) c5) c7).
 Proof.
